@@ -145,7 +145,24 @@ Fixpoint forward_to (k : nat) (tr : trace) : trace * option N :=
       else let r := forward_to k rest in ((t, e) :: fst r, snd r)
   end.
 
-Inductive fwd := FwdNone | FwdOpen | FwdClose (k : N).
+(** A consumer that stops polling after it has received [n] events (and keeps the stream
+    without ever polling it again): the pipeline is pull based, so nothing further happens —
+    no item is taken from the connection, no init call is made. With n = 0 the stream is never
+    polled at all: only the first init call (made by init_reconnecting_stream itself) is seen. *)
+Fixpoint take_upto (n : nat) (tr : trace) : trace :=
+  match tr with
+  | [] => []
+  | (t, e) :: rest =>
+      match n with
+      | O => []
+      | S n' => if is_output e then (t, e) :: take_upto n' rest
+                else (t, e) :: take_upto n rest
+      end
+  end.
+Definition consumer_take (n : nat) (tr : trace) : trace :=
+  match n with O => firstn 1 tr | S _ => take_upto n tr end.
+
+Inductive fwd := FwdNone | FwdOpen | FwdClose (k : N) | FwdTake (n : N).
 
 (** Everything observed on one run. [RPanic] is never produced by the model. *)
 Inductive robs :=
@@ -165,6 +182,7 @@ Definition reconnecting (pol : policy) (o : N) (handler : bool) (f : fwd) (s : l
       match f with
       | FwdNone | FwdOpen => RStream tr None
       | FwdClose k => let r := forward_to (N.to_nat k) tr in RStream (fst r) (snd r)
+      | FwdTake n => RStream (consumer_take (N.to_nat n) tr) None
       end
   end.
 
